@@ -1,23 +1,993 @@
-//! C11: not built yet
+//! C11: after a connection failure the client retransmits first, unchanged, and (3.1.1 client,
+//! in-order-acking broker) in original order; with no session nothing is carried over.
+//! Substrate S3: real `EventLoop::poll()` of both clients against the scripted broker, with the
+//! failure enumerated at every byte of both directions of the first connection (`FaultyStream`).
+//!
+//! The oracle reads only the wire (what the client handed to the transport, decoded with the
+//! broker's codec), the scripted user's own record of when it issued which request, and – for
+//! the "starts clean" clause – the public bookkeeping right after the CONNACK.
 use super::{Meta, Prop};
-use crate::common::{Ctx, Stats};
+use crate::common::{fnv, judge, sharded, Ctx, Judged, Record, Rng, Stats};
+use crate::sub::s3::{self, *};
+use serde::{Deserialize, Serialize};
+use serde_json::{json, Value};
+use std::collections::{BTreeMap, BTreeSet};
 
-fn run(_ctx: &Ctx) -> Stats {
-    let mut s = Stats::default();
-    s.inconclusive.push("check not built yet".into());
-    s
+#[derive(Clone, Debug, Serialize, Deserialize, PartialEq)]
+enum Op {
+    /// publish with payload "p<n>" on topic "t"
+    Pub { qos: u8, n: usize },
+    /// subscribe to the filter "f/<n>"
+    Sub { n: usize },
+    Unsub { n: usize },
+}
+
+#[derive(Clone, Debug, Serialize, Deserialize, PartialEq)]
+enum FaultSpec {
+    /// client→broker direction fails after k bytes
+    C2b(u64),
+    /// broker→client direction ends after k bytes: EOF
+    B2cEof(u64),
+    /// … with ConnectionReset
+    B2cReset(u64),
+    /// the broker closes the pipe 1 s after accepting it
+    Close,
+}
+
+#[derive(Clone, Debug, Serialize, Deserialize, PartialEq)]
+struct ConnSpec {
+    /// CONNACK session_present (ignored for a refused attempt)
+    session_present: bool,
+    /// the transport connect is refused (no connection comes into being)
+    refuse: bool,
+    /// the broker answers the first `acks` QoS>0 publishes of this connection normally (in
+    /// order) and ignores later ones; None = answers all
+    acks: Option<usize>,
+    /// broker answers QoS 1 publishes in reverse order in windows of this size (out-of-order acks)
+    reorder: Option<usize>,
+    fault: Option<FaultSpec>,
+    /// requests the user issues right after this connection (attempt) has ended
+    late: Vec<Op>,
+}
+
+#[derive(Clone, Debug, Serialize, Deserialize, PartialEq)]
+struct Case {
+    ver: String,
+    inflight: u16,
+    /// requests issued right after the first CONNACK
+    ops: Vec<Op>,
+    /// one entry per connection attempt; the last one is fault-free and runs until idle
+    conns: Vec<ConnSpec>,
+}
+
+fn ver_of(c: &Case) -> Ver {
+    if c.ver == "v5" {
+        Ver::V5
+    } else {
+        Ver::V4
+    }
+}
+
+fn act_of(op: &Op) -> Act {
+    match op {
+        Op::Pub { qos, n } => Act::publish(*qos, "t", &format!("p{n}")),
+        Op::Sub { n } => Act::Subscribe {
+            filter: format!("f/{n}"),
+            qos: 1,
+        },
+        Op::Unsub { n } => Act::Unsubscribe { filter: format!("f/{n}") },
+    }
+}
+
+fn ident_of_pk(pk: &Pk) -> Option<String> {
+    match pk.kind {
+        Kind::Publish => Some(pk.payload.clone()),
+        Kind::Subscribe => pk.filters.first().map(|f| format!("S:{f}")),
+        Kind::Unsubscribe => pk.filters.first().map(|f| format!("U:{f}")),
+        _ => None,
+    }
+}
+
+fn build(case: &Case) -> Scenario {
+    let mut scn = Scenario::new(ver_of(case));
+    scn.opts.keep_alive_s = 5;
+    scn.opts.clean_session = false;
+    scn.opts.inflight = case.inflight;
+    scn.opts.channel_cap = 1024;
+    scn.snap = SnapLevel::Full;
+    scn.conns.clear();
+    for (i, c) in case.conns.iter().enumerate() {
+        let mut p = ConnPolicy::normal(c.session_present);
+        if c.refuse {
+            p.accept = Accept::Refuse;
+        }
+        if let Some(n) = c.acks {
+            // QoS 1 and QoS 2 publishes are counted together by position: the rule sequences
+            // are per class, so give both classes the same cut-off on their own counters
+            p.rules.insert(On::PublishQ1, RuleSeq::normal_then(n, Reply::Drop));
+            p.rules.insert(On::PublishQ2, RuleSeq::normal_then(n, Reply::Drop));
+        }
+        if let Some(w) = c.reorder {
+            p.rules.insert(On::PublishQ1, RuleSeq::always(Reply::Reorder(w)));
+        }
+        let fault = match &c.fault {
+            Some(FaultSpec::C2b(k)) => Fault::c2b(*k),
+            Some(FaultSpec::B2cEof(k)) => Fault::b2c(*k, EndKind::Eof),
+            Some(FaultSpec::B2cReset(k)) => Fault::b2c(*k, EndKind::Reset),
+            Some(FaultSpec::Close) => {
+                p.close_at_ms = Some(1000);
+                Fault::NONE
+            }
+            None => Fault::NONE,
+        };
+        if c.fault.is_some() {
+            // a byte fault that never fires must not leave the connection up for ever
+            p.close_at_ms = Some(p.close_at_ms.unwrap_or(1000));
+        }
+        scn.conns.push(ConnPlan { policy: p, fault });
+        for op in &c.late {
+            scn.user.push(UserStep {
+                when: When::AfterConnEnd(i),
+                act: act_of(op),
+            });
+        }
+    }
+    // idle = the keep-alive ping of a connection nobody disturbed (also of connections the
+    // script did not plan: an unexpected failure reconnects with the last plan)
+    for i in 0..case.conns.len() + 6 {
+        scn.stop.when.push(When::AfterEvent {
+            conn: i,
+            incoming: false,
+            kind: Kind::PingReq,
+            nth: 0,
+        });
+    }
+    for op in &case.ops {
+        scn.user.push(UserStep {
+            when: When::AfterConnAck(0),
+            act: act_of(op),
+        });
+    }
+    scn.horizon_ms = 60_000;
+    scn
+}
+
+#[derive(Clone, Debug, PartialEq)]
+enum Class {
+    /// transmitted (at least handed to the transport), no acknowledgement ever reached the client
+    Must,
+    /// an acknowledgement was delivered to the client's transport; it may or may not have been
+    /// processed before the failure
+    May,
+}
+
+#[derive(Clone, Debug)]
+struct Carried {
+    ident: String,
+    pkid: u16,
+    qos: u8,
+    topic: String,
+    /// position in the order of first transmissions
+    order: usize,
+    class: Class,
+}
+
+struct Facts<'a> {
+    case: &'a Case,
+}
+
+impl Facts<'_> {
+    fn rec(&self, oracle: &str, msg: String) -> Record {
+        Record::new("C11", oracle, msg).fact("client", self.case.ver.clone())
+    }
+}
+
+/// All oracles over one run. Returns the records in the order the history produced them.
+fn verdicts(ctx: &Ctx, case: &Case, log: &RunLog, stats: &mut Stats) -> Vec<Record> {
+    let f = Facts { case };
+    let mut out = vec![];
+    if let Some(p) = &log.panic {
+        out.push(
+            f.rec("panic", format!("panic in the client at {}: {}", p.location, p.message))
+                .fact("site", crate::common::panic_site(p)),
+        );
+        return out;
+    }
+
+    // when did the user issue what: ident -> number of poll() returns before the request
+    let mut issued: BTreeMap<String, usize> = BTreeMap::new();
+    for u in &log.user {
+        let id = match &u.act {
+            Act::Publish { payload, .. } => payload.clone(),
+            Act::Subscribe { filter, .. } => format!("S:{filter}"),
+            Act::Unsubscribe { filter } => format!("U:{filter}"),
+            _ => continue,
+        };
+        if u.ok {
+            issued.insert(id, u.polls_before);
+        }
+    }
+
+    // publishes that were parked on a packet-id collision and later released: payload -> kind of
+    // the acknowledgement that released them (only used to label a finding, never for a verdict)
+    let mut released_by: BTreeMap<String, String> = BTreeMap::new();
+    let mut parked: Option<(u16, String)> = None;
+    let mut taint: Option<(usize, String, Record)> = None;
+    for (i, p) in log.polls.iter().enumerate() {
+        if p.is(false, Kind::AwaitAck) {
+            if let (Some(id), Some(pl)) = (p.snap.collision, p.snap.collision_payload.clone()) {
+                parked = Some((id, pl));
+            }
+        } else if let (Some((id, pl)), Some(e)) = (&parked, p.ev()) {
+            if !e.incoming && e.pk.kind == Kind::Publish && e.pk.pkid == *id && i > 0 {
+                if let Some(prev) = log.polls[i - 1].ev() {
+                    if prev.incoming && prev.pk.pkid == *id && matches!(prev.pk.kind, Kind::PubAck | Kind::PubComp) {
+                        released_by.insert(pl.clone(), format!("{:?}", prev.pk.kind));
+                        // is the released publish in the client's books (unacknowledged table or
+                        // replay queue) right after the release was reported?
+                        let tracked = p
+                            .snap
+                            .held
+                            .iter()
+                            .chain(p.snap.pending.iter())
+                            .any(|r| r.kind == Kind::Publish && r.payload == *pl);
+                        if !tracked && taint.is_none() {
+                            let r = f
+                                .rec(
+                                    "released-publish-not-tracked",
+                                    format!(
+                                        "publish '{pl}' parked on the collision of id {id} was released by {:?} and written, but is neither in the unacknowledged table nor in the replay queue",
+                                        prev.pk.kind
+                                    ),
+                                )
+                                .fact("released_by", format!("{:?}", prev.pk.kind));
+                            // bookkeeping is corrupt from here on: only used to stop judging when this
+                            // is a listed finding; it is C02's statement, not C11's
+                            if crate::common::match_known(&ctx.known, &r).is_some() {
+                                taint = Some((i, pl.clone(), r));
+                            }
+                        }
+                        parked = None;
+                    }
+                }
+            }
+        }
+    }
+
+    // carried-over bookkeeping, built connection by connection from the wire
+    let mut carried: Vec<Carried> = vec![]; // publishes transmitted and not known to be acknowledged
+    let mut order_no = 0usize;
+    let mut in_order_broker = true; // every PUBACK so far answered the oldest outstanding QoS 1 publish
+    let mut ever_on_wire: BTreeSet<String> = BTreeSet::new();
+    let mut qos_mix = false; // ids were consumed by something other than QoS 1 publishes
+    let mut prev_established: Option<usize> = None; // last connection that got a CONNACK
+    let mut prev_end_poll: usize = 0; // poll index of the Err that ended it
+    let mut replay_interrupted = false; // an earlier resumed connection failed before finishing its replay
+    let mut session_lost_before = false; // an earlier reconnect found no session
+
+    let nconn = log.conns.len();
+    for n in 0..nconn {
+        let rec = &log.conns[n];
+        let connack = log.connack_of(n);
+        let established = connack.is_some();
+        let frames: Vec<&Intended> = rec.intended.iter().collect();
+        if let Some((at, pl, r)) = &taint {
+            // the client's books are corrupt from the release on: connections after the one on
+            // which the released publish went out are not judged (if it never reached the
+            // transport: after the one before the connection the release was reported on)
+            let released_on = log
+                .conns
+                .iter()
+                .position(|c| c.intended.iter().any(|x| x.pk.kind == Kind::Publish && x.pk.payload == *pl))
+                .unwrap_or_else(|| log.polls[*at].conn.unwrap_or(0).saturating_sub(1));
+            if n > released_on {
+                out.push(r.clone());
+                return out;
+            }
+        }
+        if established {
+            if let Some(prev) = prev_established {
+                let session_present = connack.unwrap().ev().unwrap().pk.flag;
+                let late: BTreeSet<&String> = issued.iter().filter(|(_, at)| **at > prev_end_poll).map(|(k, _)| k).collect();
+                let carried_ids: BTreeMap<&str, &Carried> = carried.iter().map(|c| (c.ident.as_str(), c)).collect();
+                let before: BTreeSet<&String> = issued.iter().filter(|(_, at)| **at <= prev_end_poll).map(|(k, _)| k).collect();
+                let went_idle = log.polls_of(n).any(|p| p.is(false, Kind::PingReq)) && log.end_of(n).is_none();
+
+                if session_present {
+                    stats.corner("reconnect-session-present");
+                    // ---- O1 retransmit-before-new, O2 same id/content, O3 original order
+                    let mut seen: Vec<&Carried> = vec![];
+                    let mut first_late: Option<String> = None;
+                    for fr in &frames {
+                        let Some(id) = ident_of_pk(&fr.pk) else { continue };
+                        if let Some(c) = carried_ids.get(id.as_str()) {
+                            stats.oracle("same-id-content");
+                            if fr.pk.pkid != c.pkid || fr.pk.qos != c.qos || fr.pk.topic != c.topic {
+                                out.push(
+                                    f.rec(
+                                        "retransmit-changed",
+                                        format!(
+                                            "connection {n}: publish '{id}' first sent as id {} qos {} topic '{}' was retransmitted as {}",
+                                            c.pkid, c.qos, c.topic, fr.pk.brief()
+                                        ),
+                                    )
+                                    .fact("pkid_changed", fr.pk.pkid != c.pkid),
+                                );
+                                return out;
+                            }
+                            if first_late.is_none() {
+                                seen.push(c);
+                            }
+                        } else if late.contains(&id) && first_late.is_none() {
+                            first_late = Some(id);
+                        }
+                    }
+                    // O1: when a later request went out, every MUST publish had gone out before it
+                    if first_late.is_some() || went_idle {
+                        stats.oracle("retransmit-before-new");
+                        let missing: Vec<&Carried> = carried
+                            .iter()
+                            .filter(|c| c.class == Class::Must && !seen.iter().any(|s| s.ident == c.ident))
+                            .collect();
+                        if let Some(m) = missing.first() {
+                            let (oracle, what) = match &first_late {
+                                Some(l) => (
+                                    "new-request-before-retransmission",
+                                    format!("request '{l}' issued after the failure was sent before it"),
+                                ),
+                                None => ("retransmit-missing", "the connection went idle without it".to_owned()),
+                            };
+                            out.push(
+                                f.rec(
+                                    oracle,
+                                    format!(
+                                        "connection {n} resumed the session; unacknowledged publish '{}' (id {}) of connection {prev}: {what}; wire: {:?}",
+                                        m.ident,
+                                        m.pkid,
+                                        frames.iter().map(|x| x.pk.brief()).collect::<Vec<_>>()
+                                    ),
+                                )
+                                .fact("qos", m.qos)
+                                .fact("after_interrupted_replay", replay_interrupted)
+                                .fact(
+                                    "collision_released_by",
+                                    released_by.get(&m.ident).cloned().unwrap_or_else(|| "-".into()),
+                                ),
+                            );
+                            return out;
+                        }
+                    }
+                    // O3: QoS 1 retransmissions in original order (3.1.1 client, in-order broker)
+                    if case.ver == "v4" && in_order_broker {
+                        stats.oracle("original-order");
+                        let sent: Vec<&Carried> = seen.iter().copied().filter(|c| c.qos == 1).collect();
+                        let mut reference: Vec<&Carried> = carried.iter().filter(|c| c.qos == 1).collect();
+                        reference.sort_by_key(|c| c.order);
+                        // `sent` must be the reference with only MAY elements (and a tail) missing
+                        let mut ri = 0;
+                        let mut bad: Option<String> = None;
+                        for s in &sent {
+                            loop {
+                                match reference.get(ri) {
+                                    None => {
+                                        bad = Some(format!("'{}' is out of place", s.ident));
+                                        break;
+                                    }
+                                    Some(r) if r.ident == s.ident => {
+                                        ri += 1;
+                                        break;
+                                    }
+                                    Some(r) if r.class == Class::May => ri += 1,
+                                    Some(r) => {
+                                        bad = Some(format!("'{}' was sent before the older '{}'", s.ident, r.ident));
+                                        break;
+                                    }
+                                }
+                            }
+                            if bad.is_some() {
+                                break;
+                            }
+                        }
+                        if let Some(b) = bad {
+                            let wrapped = reference.windows(2).any(|w| w[0].pkid > w[1].pkid);
+                            if wrapped {
+                                stats.corner("pkid-wrapped");
+                            }
+                            out.push(
+                                f.rec(
+                                    "retransmit-order",
+                                    format!(
+                                        "connection {n}: QoS 1 retransmissions out of original order: {b}; original order {:?}, retransmitted {:?}",
+                                        reference.iter().map(|c| format!("{}#{}", c.ident, c.pkid)).collect::<Vec<_>>(),
+                                        sent.iter().map(|c| format!("{}#{}", c.ident, c.pkid)).collect::<Vec<_>>()
+                                    ),
+                                )
+                                .fact("ids_shared_with_other_requests", qos_mix)
+                                .fact("after_interrupted_replay", replay_interrupted)
+                                .fact("after_session_loss", session_lost_before)
+                                .fact("wrapped", wrapped),
+                            );
+                            return out;
+                        }
+                        if reference.windows(2).any(|w| w[0].pkid > w[1].pkid) && sent.len() >= 2 {
+                            stats.corner("pkid-wrapped");
+                        }
+                    }
+                    // did this resumed connection fail before everything carried over (unacknowledged
+                    // publishes *and* requests that were still queued at the failure) was on the wire?
+                    if log.end_of(n).is_some() {
+                        let on_wire_now: BTreeSet<String> = frames.iter().filter_map(|x| ident_of_pk(&x.pk)).collect();
+                        let unsent_carried = carried.iter().any(|c| !on_wire_now.contains(&c.ident));
+                        let unsent_queued = before.iter().any(|id| !ever_on_wire.contains(*id) && !on_wire_now.contains(*id));
+                        if unsent_carried || unsent_queued {
+                            replay_interrupted = true;
+                            stats.corner("failure-during-replay");
+                        }
+                    }
+                } else {
+                    stats.corner("reconnect-session-absent");
+                    // ---- O4 nothing carried over
+                    stats.oracle("no-carry-over");
+                    for fr in &frames {
+                        let Some(id) = ident_of_pk(&fr.pk) else { continue };
+                        if before.contains(&id) {
+                            let class = match carried_ids.get(id.as_str()) {
+                                Some(c) if c.class == Class::Must => "unacknowledged",
+                                Some(_) => "maybe-acknowledged",
+                                None if ever_on_wire.contains(&id) => "acknowledged",
+                                None => "not-yet-sent",
+                            };
+                            out.push(
+                                f.rec(
+                                    "carried-over-without-session",
+                                    format!(
+                                        "connection {n}: broker reported no session but request '{id}' issued before the failure was sent: {}",
+                                        fr.pk.brief()
+                                    ),
+                                )
+                                .fact("class", class)
+                                .fact("kind", format!("{:?}", fr.pk.kind)),
+                            );
+                            return out;
+                        }
+                    }
+                    // ---- O5 starts clean
+                    stats.oracle("starts-clean");
+                    let s = &connack.unwrap().snap;
+                    let leftover = if s.pending_len > 0 {
+                        Some("pending")
+                    } else if s.inflight != 0 {
+                        Some("inflight")
+                    } else if !s.held.is_empty() {
+                        Some("unacked-table")
+                    } else if s.collision.is_some() {
+                        Some("collision")
+                    } else {
+                        None
+                    };
+                    if let Some(l) = leftover {
+                        out.push(
+                            f.rec(
+                                "not-clean-without-session",
+                                format!(
+                                    "connection {n}: broker reported no session but the client still holds state: pending={} inflight={} unacked={:?} collision={:?}",
+                                    s.pending_len, s.inflight, s.held, s.collision
+                                ),
+                            )
+                            .fact("leftover", l),
+                        );
+                        return out;
+                    }
+                    carried.clear();
+                    replay_interrupted = false;
+                    session_lost_before = true;
+                }
+            }
+        }
+
+        // ---- update the model with what this connection put on the wire and got acknowledged
+        for fr in &frames {
+            if let Some(id) = ident_of_pk(&fr.pk) {
+                ever_on_wire.insert(id.clone());
+                match fr.pk.kind {
+                    Kind::Publish if fr.pk.qos > 0 => {
+                        if fr.pk.qos == 2 {
+                            qos_mix = true;
+                        }
+                        if !carried.iter().any(|c| c.ident == id) {
+                            carried.push(Carried {
+                                ident: id,
+                                pkid: fr.pk.pkid,
+                                qos: fr.pk.qos,
+                                topic: fr.pk.topic.clone(),
+                                order: order_no,
+                                class: Class::Must,
+                            });
+                            order_no += 1;
+                        }
+                    }
+                    Kind::Subscribe | Kind::Unsubscribe => qos_mix = true,
+                    _ => {}
+                }
+            }
+        }
+        // acknowledgements the broker wrote on this connection, in wire order, each with the
+        // publish it answered (packet ids are reused, so the pairing is done on the broker's side
+        // of the wire where it is unambiguous)
+        let mut outstanding: Vec<(u16, String, u8)> = vec![]; // (pkid, ident, qos) as the broker received them
+        let mut acks_written: Vec<(String, bool)> = vec![]; // (publish answered, ack bytes reached the client's transport)
+        for w in log.wire.iter().filter(|w| w.conn == n) {
+            match (w.dir, w.pk.kind) {
+                (Dir::C2B, Kind::Publish) if w.pk.qos > 0 => outstanding.push((w.pk.pkid, w.pk.payload.clone(), w.pk.qos)),
+                (Dir::B2C, Kind::PubAck) | (Dir::B2C, Kind::PubRec) if !w.suppressed => {
+                    let Some(pos) = outstanding.iter().position(|o| o.0 == w.pk.pkid) else {
+                        acks_written.push((String::new(), w.end_offset <= rec.b2c_bytes));
+                        continue;
+                    };
+                    if w.pk.kind == Kind::PubAck {
+                        let oldest_q1 = outstanding.iter().position(|o| o.2 == 1);
+                        if oldest_q1 != Some(pos) {
+                            in_order_broker = false;
+                        }
+                    }
+                    let (_, ident, _) = outstanding.remove(pos);
+                    acks_written.push((ident, w.end_offset <= rec.b2c_bytes));
+                }
+                _ => {}
+            }
+        }
+        if established {
+            if let Some(end) = log.end_of(n) {
+                // How many of those acknowledgements did the client process? It processes the
+                // delivered stream in order, so the count is enough: PUBACK/PUBREC events returned
+                // by poll() since the previous failure, minus the ones that were still queued from
+                // the previous connection, plus the ones still queued now.
+                let is_ack = |e: &Ev| e.incoming && matches!(e.pk.kind, Kind::PubAck | Kind::PubRec);
+                let prev_err = log.polls[..end.idx].iter().rposition(|p| p.err().is_some());
+                let span_from = prev_err.map(|i| i + 1).unwrap_or(0);
+                let surfaced = log.polls[span_from..end.idx].iter().filter(|p| p.ev().map(is_ack).unwrap_or(false)).count();
+                let stale = prev_err
+                    .map(|i| log.polls[i].snap.queued_events.iter().filter(|e| is_ack(e)).count())
+                    .unwrap_or(0);
+                let queued = end.snap.queued_events.iter().filter(|e| is_ack(e)).count();
+                let processed = (surfaced + queued).saturating_sub(stale);
+                let delivered = acks_written.iter().filter(|a| a.1).count();
+                if processed > delivered || surfaced < stale {
+                    stats.add_extra("histories_unaligned", 1);
+                    stats.inconclusive.push(format!(
+                        "connection {n}: client processed {processed} acknowledgements but only {delivered} reached its transport (surfaced {surfaced}, stale {stale}, queued {queued})"
+                    ));
+                    return out;
+                }
+                for (i, (ident, delivered)) in acks_written.iter().enumerate() {
+                    if i < processed {
+                        // acknowledged as far as the client is concerned: no longer carried
+                        carried.retain(|c| c.ident != *ident);
+                    } else if *delivered {
+                        if let Some(c) = carried.iter_mut().find(|c| c.ident == *ident) {
+                            c.class = Class::May;
+                        }
+                    }
+                }
+                prev_established = Some(n);
+                prev_end_poll = end.idx;
+                if let Some((dir, _)) = rec.fired {
+                    // a crash point strictly inside a frame
+                    let boundaries: BTreeSet<u64> = match dir {
+                        Dir::C2B => rec.intended.iter().map(|x| x.end_offset).collect(),
+                        Dir::B2C => log.wire_of(n, Dir::B2C).map(|w| w.end_offset).collect(),
+                    };
+                    let (at, total) = match dir {
+                        Dir::C2B => (rec.c2b_bytes, boundaries.iter().next_back().copied().unwrap_or(0)),
+                        Dir::B2C => (rec.b2c_bytes, boundaries.iter().next_back().copied().unwrap_or(0)),
+                    };
+                    if at > 0 && at < total && !boundaries.contains(&at) {
+                        stats.corner("failure-mid-frame");
+                    }
+                }
+            } else {
+                prev_established = Some(n);
+            }
+        }
+    }
+    out
+}
+
+fn shape(case: &Case, log: &RunLog) -> u64 {
+    // op kinds with ids abstracted + per connection (flavour of the end, session flag, frames cut)
+    let ops: String = case
+        .ops
+        .iter()
+        .map(|o| match o {
+            Op::Pub { qos, .. } => char::from(b'0' + *qos),
+            Op::Sub { .. } => 's',
+            Op::Unsub { .. } => 'u',
+        })
+        .collect();
+    let conns: Vec<String> = case
+        .conns
+        .iter()
+        .zip(log.conns.iter())
+        .map(|(c, r)| {
+            let fl = match &c.fault {
+                Some(FaultSpec::C2b(_)) => "c",
+                Some(FaultSpec::B2cEof(_)) => "e",
+                Some(FaultSpec::B2cReset(_)) => "r",
+                Some(FaultSpec::Close) => "x",
+                None => "-",
+            };
+            format!(
+                "{fl}{}{}:{}:{}:{}",
+                c.session_present as u8,
+                c.refuse as u8,
+                r.intended.len(),
+                c.acks.map(|a| a as i64).unwrap_or(-1),
+                c.late.len()
+            )
+        })
+        .collect();
+    fnv(format!("{}|{}|{ops}|{conns:?}", case.ver, case.inflight).as_bytes())
+}
+
+struct Outcome {
+    c2b0: u64,
+    b2c0: u64,
+    known: bool,
+}
+
+fn run_case(ctx: &Ctx, stats: &mut Stats, case: &Case) -> Outcome {
+    let scn = build(case);
+    let log = s3::run(&scn);
+    stats.evaluations += 1;
+    stats.opn("poll_returns", log.polls.len() as u64);
+    stats.opn("wire_frames", log.wire.len() as u64);
+    stats.opn("connections", log.conns.len() as u64);
+    stats.add_extra("virtual_seconds", log.end_ms / 1000);
+    let mut o = Outcome {
+        c2b0: log.conns.first().map(|c| c.c2b_bytes).unwrap_or(0),
+        b2c0: log.conns.first().map(|c| c.b2c_bytes).unwrap_or(0),
+        known: false,
+    };
+    if log.panic.is_some() {
+        stats.panics_caught += 1;
+    }
+    if let Some(e) = &log.harness_error {
+        stats.inconclusive.push(format!("harness: {e}"));
+        return o;
+    }
+    if log.stopped_by != "stop-condition" {
+        stats.add_extra("runs_ended_at_horizon", 1);
+    }
+    if let Ok(pat) = std::env::var("VERIF_DUMP") {
+        let text = serde_json::to_string(case).unwrap_or_default();
+        if text.contains(&pat) {
+            println!("--- {text}");
+            for l in log.brief(200) {
+                println!("    {l}");
+            }
+        }
+    }
+    for p in &log.polls {
+        stats.sig(format!(
+            "infl{}:col{}:pend{}:held{}",
+            p.snap.inflight.min(6),
+            p.snap.collision.is_some() as u8,
+            p.snap.pending_len.min(6),
+            p.snap.held.len().min(6)
+        ));
+        if p.is(false, Kind::AwaitAck) {
+            stats.corner("collision-parked");
+        }
+    }
+    for c in &log.conns {
+        if c.fired.is_some() {
+            stats.add_extra("crash_points_fired", 1);
+        }
+    }
+    let records = verdicts(ctx, case, &log, stats);
+    if log.conns.len() >= 2 {
+        stats.shapes.insert(shape(case, &log));
+    }
+    if stats.samples.len() < 3 && stats.evaluations % 211 == 5 {
+        stats.sample(json!({"case": case, "observed": log.brief(80)}));
+    }
+    for r in records {
+        let replay = || json!({"case": case, "observed": log.brief(400)});
+        if let Judged::Known(_) = judge(ctx, stats, r, replay) {
+            o.known = true;
+            break;
+        }
+    }
+    o
+}
+
+// ---------------------------------------------------------------- workload
+
+struct Gen {
+    rng: Rng,
+    next_id: usize,
+}
+
+impl Gen {
+    fn op(&mut self, pure: bool) -> Op {
+        self.next_id += 1;
+        let n = self.next_id;
+        if pure {
+            // QoS 1 mostly, some QoS 0 (which takes no packet id)
+            return Op::Pub {
+                qos: if self.rng.chance(1, 6) { 0 } else { 1 },
+                n,
+            };
+        }
+        match self.rng.weighted(&[2, 10, 4, 2, 1]) {
+            0 => Op::Pub { qos: 0, n },
+            1 => Op::Pub { qos: 1, n },
+            2 => Op::Pub { qos: 2, n },
+            3 => Op::Sub { n },
+            _ => Op::Unsub { n },
+        }
+    }
+    fn ops(&mut self, lo: u64, hi: u64, pure: bool) -> Vec<Op> {
+        let n = self.rng.range(lo, hi);
+        (0..n).map(|_| self.op(pure)).collect()
+    }
+}
+
+/// Which genuine-defect triggers a history may contain (DESIGN.md 1.2 workload split)
+#[derive(Clone, Copy, PartialEq)]
+enum Flavour {
+    /// QoS 0/1 publishes only, in-order broker, at most one failure while a session is resumed
+    Plain,
+    /// ids also consumed by QoS 2 publishes / subscribes (trigger: rotation point of clean())
+    Mixed,
+    /// a resumed connection fails again in the middle of its replay (trigger: replay order)
+    InterruptedReplay,
+    /// out-of-order acks (collisions) followed by a lost session (trigger: collision survives)
+    Collision,
+    /// a reconnect without session, new publishes left unacknowledged, then a resumed session
+    /// (trigger: stale rotation point after the session was lost)
+    AfterSessionLoss,
+}
+
+/// session_present flags of the connections after the first one, drawn so that only the
+/// flavour's own trigger can occur
+fn draw_sessions(rng: &mut Rng, flavour: Flavour, n: usize) -> Vec<bool> {
+    match flavour {
+        Flavour::AfterSessionLoss => {
+            let mut v = vec![true; n];
+            v[0] = false;
+            v
+        }
+        Flavour::Collision => (0..n).map(|_| rng.chance(1, 2)).collect(),
+        _ => {
+            // once a session was lost it is never resumed later in the same history
+            let lost_from = if rng.chance(1, 3) { rng.below(n as u64) as usize } else { n };
+            (0..n).map(|i| i < lost_from).collect()
+        }
+    }
+}
+
+fn gen_case(g: &mut Gen, ver: &str, flavour: Flavour) -> Case {
+    let mut inflight = *g.rng.pick(&[1u16, 2, 3, 3, 5, 5, 10]);
+    let pure = flavour != Flavour::Mixed;
+    // a plain history with a second failure keeps everything inside the inflight window, so that
+    // the replay cannot run into packet-id collisions (that is C02/C07 territory, and the
+    // collision-survives finding)
+    let plain_chain = flavour == Flavour::Plain && g.rng.chance(1, 3);
+    if plain_chain {
+        inflight = *g.rng.pick(&[5u16, 10]);
+    }
+    let l = inflight as u64;
+    let ops = if plain_chain { g.ops(2, l - 3, pure) } else { g.ops(l.max(2), (3 * l + 8).min(26), pure) };
+    let npubs = ops.iter().filter(|o| matches!(o, Op::Pub { qos, .. } if *qos > 0)).count() as u64;
+    let acks0 = g.rng.below(npubs + 1) as usize;
+    let mut conns = vec![ConnSpec {
+        session_present: false,
+        refuse: false,
+        acks: Some(acks0),
+        reorder: if flavour == Flavour::Collision { Some(2 + g.rng.below(2) as usize) } else { None },
+        fault: Some(FaultSpec::Close),
+        late: g.ops(0, 3, pure),
+    }];
+    if flavour == Flavour::Collision {
+        conns[0].acks = None;
+    }
+    // optionally a refused attempt in between
+    if g.rng.chance(1, 8) {
+        conns.push(ConnSpec {
+            session_present: false,
+            refuse: true,
+            acks: None,
+            reorder: None,
+            fault: None,
+            late: if plain_chain { vec![] } else { g.ops(0, 2, pure) },
+        });
+    }
+    let sp1 = true; // session flags are drawn at the end
+    let second_failure = match flavour {
+        Flavour::InterruptedReplay => true,
+        Flavour::Plain | Flavour::AfterSessionLoss => false,
+        _ => g.rng.chance(1, 3),
+    };
+    if second_failure {
+        // fails again: either somewhere in the replay (byte fault) or after it (unacked + close)
+        let fault = if flavour == Flavour::InterruptedReplay || g.rng.chance(1, 2) {
+            FaultSpec::C2b(14 + g.rng.below(120))
+        } else {
+            FaultSpec::Close
+        };
+        conns.push(ConnSpec {
+            session_present: sp1,
+            refuse: false,
+            acks: Some(g.rng.below(4) as usize),
+            reorder: None,
+            fault: Some(fault),
+            late: g.ops(0, 3, pure),
+        });
+        conns.push(ConnSpec {
+            session_present: true,
+            refuse: false,
+            acks: None,
+            reorder: None,
+            fault: None,
+            late: vec![],
+        });
+    } else if flavour == Flavour::AfterSessionLoss || plain_chain {
+        // a second failure *after* the replay completed: the resumed connection gets no acks and
+        // is closed by the broker, so everything is carried once more
+        conns.push(ConnSpec {
+            session_present: sp1,
+            refuse: false,
+            acks: Some(0),
+            reorder: None,
+            fault: Some(FaultSpec::Close),
+            late: if plain_chain { vec![] } else { g.ops(0, 3, pure) },
+        });
+        conns.push(ConnSpec {
+            session_present: true,
+            refuse: false,
+            acks: None,
+            reorder: None,
+            fault: None,
+            late: vec![],
+        });
+    } else {
+        conns.push(ConnSpec {
+            session_present: sp1,
+            refuse: false,
+            acks: None,
+            reorder: None,
+            fault: None,
+            late: vec![],
+        });
+    }
+    let mut case = Case {
+        ver: ver.into(),
+        inflight,
+        ops,
+        conns,
+    };
+    redraw_sessions(&mut g.rng, flavour, &mut case);
+    case
+}
+
+fn redraw_sessions(rng: &mut Rng, flavour: Flavour, case: &mut Case) {
+    let idx: Vec<usize> = (1..case.conns.len()).filter(|i| !case.conns[*i].refuse).collect();
+    let flags = draw_sessions(rng, flavour, idx.len());
+    for (i, f) in idx.into_iter().zip(flags) {
+        case.conns[i].session_present = f;
+    }
+}
+
+fn workload(ctx: &Ctx, _shard: usize, seed: u64) -> Stats {
+    let mut stats = Stats::default();
+    let mut g = Gen {
+        rng: Rng::new(seed),
+        next_id: 0,
+    };
+    let histories = ctx.size(400, 2500);
+    for h in 0..histories {
+        let ver = if h % 3 == 2 { "v5" } else { "v4" };
+        // ~85 % of the histories are free of the known triggers
+        let flavour = match g.rng.below(100) {
+            0..=84 => Flavour::Plain,
+            85..=88 => Flavour::Mixed,
+            89..=92 => Flavour::InterruptedReplay,
+            93..=96 => Flavour::AfterSessionLoss,
+            _ => Flavour::Collision,
+        };
+        g.next_id = 0;
+        let base = gen_case(&mut g, ver, flavour);
+        stats.op(match flavour {
+            Flavour::Plain => "history:plain",
+            Flavour::Mixed => "history:mixed-ids",
+            Flavour::InterruptedReplay => "history:interrupted-replay",
+            Flavour::Collision => "history:collision",
+            Flavour::AfterSessionLoss => "history:after-session-loss",
+        });
+        // fault-free reference run (the broker closes the first connection after 1 s)
+        let reference = run_case(ctx, &mut stats, &base);
+        // every crash point of the first connection, both directions
+        let mut variants: Vec<FaultSpec> = (0..=reference.c2b0).map(FaultSpec::C2b).collect();
+        for k in 0..=reference.b2c0 {
+            variants.push(if k % 2 == 0 { FaultSpec::B2cEof(k) } else { FaultSpec::B2cReset(k) });
+        }
+        stats.add_extra("crash_points", variants.len() as u64);
+        for v in variants {
+            let mut c = base.clone();
+            c.conns[0].fault = Some(v);
+            // the dimensions after the failure are re-drawn per crash point
+            let last = c.conns.len() - 1;
+            redraw_sessions(&mut g.rng, flavour, &mut c);
+            for i in 1..=last {
+                if let Some(FaultSpec::C2b(_)) = c.conns[i].fault {
+                    c.conns[i].fault = Some(FaultSpec::C2b(14 + g.rng.below(120)));
+                }
+            }
+            run_case(ctx, &mut stats, &c);
+        }
+    }
+    stats
+}
+
+fn run(ctx: &Ctx) -> Stats {
+    let mut stats = if ctx.quick() {
+        workload(ctx, 0, ctx.seed.wrapping_mul(1000))
+    } else {
+        sharded(ctx, ctx.threads, |shard, seed| workload(ctx, shard, seed))
+    };
+    stats.exhaustive_scopes.push(
+        "per history: every byte offset k in [0, N] of the client->broker stream and every k' in [0, N'] of the broker->client stream of the first connection as the failure point (N, N' from the fault-free reference run)".into(),
+    );
+    stats
+}
+
+fn replay(ctx: &Ctx, doc: &Value) -> Stats {
+    let mut stats = Stats::default();
+    match serde_json::from_value::<Case>(doc["case"].clone()) {
+        Ok(case) => {
+            // the order in which select! serves ready branches is random: re-execute a few times
+            let mut reproduced = 0;
+            for _ in 0..16 {
+                let before = stats.violations.len() + stats.known_hit.values().sum::<u64>() as usize;
+                run_case(ctx, &mut stats, &case);
+                if stats.violations.len() + stats.known_hit.values().sum::<u64>() as usize > before {
+                    reproduced += 1;
+                }
+            }
+            stats.add_extra("replay_runs", 16);
+            stats.add_extra("replay_reproduced", reproduced);
+            stats.shapes.insert(1);
+            stats.shapes.insert(2);
+        }
+        Err(e) => stats.inconclusive.push(format!("replay file has no usable case: {e}")),
+    }
+    stats
 }
 
 pub fn prop() -> Prop {
     Prop {
         id: "C11",
         meta: Meta {
-            level: "exploration",
-            rule: "not built",
-            assumptions: &[],
-            floors: &[],
+            level: "fault_enumeration",
+            rule: "a case = (client version, inflight limit, request history, per connection: end flavour and crash byte, session flag, acks granted, requests issued after it); distinct = distinct (version, limit, op-kind sequence with ids abstracted, per connection (end flavour, session flag, refused, number of frames the client put on the wire, acks, late requests)); non-trivial = at least one reconnect happened",
+            assumptions: &[
+                "a publish counts as left unacknowledged when it was handed to the transport and no PUBACK/PUBREC for it was delivered to the client's transport; publishes whose acknowledgement was delivered but possibly not processed before the failure may or may not be retransmitted",
+                "the ordering clause is judged for the 3.1.1 client while every PUBACK so far answered the oldest outstanding QoS 1 publish",
+                "select! serves ready branches in random order, so a replay re-executes the case 16 times",
+            ],
+            floors: &[
+                ("reconnect-session-present", 500),
+                ("reconnect-session-absent", 150),
+                ("failure-mid-frame", 300),
+                ("pkid-wrapped", 20),
+                ("retransmit-before-new", 300),
+                ("original-order", 300),
+                ("no-carry-over", 150),
+                ("starts-clean", 150),
+            ],
         },
         run,
-        replay: None,
+        replay: Some(replay),
     }
 }
